@@ -290,7 +290,10 @@ type c19Spec struct {
 	ordered    bool
 	maxRtx     *uint16
 	maxLife    *uint16
-	pre        bool // created before the connection exists
+	when       int // c19Pre: created before signalling; c19Mid: right after signalling, while the transports come up; c19Post: after "connected"
+	idMode     int // c19IDAuto: the library picks the stream id; c19IDExplicit: in-band with DataChannelInit.ID; c19IDNegotiated: Negotiated+ID, created by both peers
+	id         uint16
+	otherFirst bool // negotiated: the non-"creator" peer creates its end first
 	eager      bool // both ends start sending from their OnOpen handler
 	closeAfter int  // -1: no; otherwise the direction that sends (other direction silent) and closes right after its last Send
 	plan       [2][]c19Msg
@@ -302,6 +305,33 @@ type c19Spec struct {
 	sendErrs      [2]int
 	sendOnce      [2]sync.Once
 	sendDone      [2]chan struct{}
+}
+
+const (
+	c19Pre = iota
+	c19Mid
+	c19Post
+)
+
+const (
+	c19IDAuto = iota
+	c19IDExplicit
+	c19IDNegotiated
+)
+
+var (
+	c19WhenNames = []string{"pre", "mid", "post"}                                 //nolint:gochecknoglobals
+	c19IDNames   = []string{"inband-auto-id", "inband-explicit-id", "negotiated"} //nolint:gochecknoglobals
+)
+
+func (s *c19Spec) negotiated() bool { return s.idMode == c19IDNegotiated }
+
+func (s *c19Spec) idDesc() string {
+	if s.idMode == c19IDAuto {
+		return "auto"
+	}
+
+	return fmt.Sprintf("%s:%d", c19IDNames[s.idMode][:3], s.id)
 }
 
 func (s *c19Spec) reliableOrdered() bool { return s.ordered && s.maxRtx == nil && s.maxLife == nil }
@@ -323,6 +353,19 @@ func (s *c19Spec) init() *DataChannelInit {
 	if s.maxLife != nil {
 		v := *s.maxLife
 		in.MaxPacketLifeTime = &v
+	}
+	if s.idMode != c19IDAuto {
+		id := s.id
+		in.ID = &id
+		if s.negotiated() {
+			neg := true
+			in.Negotiated = &neg
+		} else if s.k%2 == 1 {
+			neg := false
+			in.Negotiated = &neg
+		}
+
+		return in
 	}
 	if s.reliableOrdered() && s.protocol == "" && s.k%3 == 1 {
 		return nil // plain default channel
@@ -374,11 +417,67 @@ var c19Types = []string{"ordered/reliable", "unordered/reliable", "ordered/rtx",
 
 func c19GenSpecs(r *kit.Rand, caseIdx int) []*c19Spec {
 	nCh := r.Range(1, 6)
+	if caseIdx%3 == 1 {
+		nCh = r.Range(3, 6)
+	}
 	var specs []*c19Spec
 	labels := map[string]bool{}
+	ids := map[int]bool{}
+	// per-pair regime: how many channels exist before the SCTP association does, how many carry an application-chosen id and
+	// how crowded the low end of the id space is
+	pEarly := kit.Pick(r, []float64{0.2, 0.4, 0.7, 0.9})
+	pExplicit := kit.Pick(r, []float64{0, 0.3, 0.5, 0.7})
+	pLowID := kit.Pick(r, []float64{0.3, 0.6, 0.9})
+	if caseIdx%3 == 1 { // every seed has pairs whose channels mostly exist before the association and compete for the lowest ids
+		pEarly, pExplicit, pLowID = 0.95, 0.5, 0.9
+	}
 	budget := 900_000 / nCh // bytes per direction (keeps a pair within a few MB under delay)
 	for k := 0; k < nCh; k++ {
-		s := &c19Spec{k: k, creator: r.Intn(2), pre: r.Chance(0.4), eager: r.Chance(0.4), closeAfter: -1}
+		s := &c19Spec{k: k, creator: r.Intn(2), when: c19Post, eager: r.Chance(0.4), closeAfter: -1}
+		switch x := r.Float64(); {
+		case x < pEarly*0.8:
+			s.when = c19Pre
+		case x < pEarly:
+			s.when = c19Mid
+		}
+		if x := r.Float64(); x < pExplicit*0.7 {
+			s.idMode = c19IDNegotiated
+			s.otherFirst = r.Chance(0.5)
+		} else if x < pExplicit {
+			s.idMode = c19IDExplicit
+		}
+		if s.idMode != c19IDAuto {
+			// The application picks the stream id. It stays inside what an application may do: ids are distinct within the pair;
+			// an in-band channel uses the parity of its creator (RFC 8832: DTLS client even, server odd; the answerer is the DTLS
+			// client by default); only channels created before signalling use low ids (nothing can be assigned yet), later ones use
+			// ids >= 64, far above anything the handful of library-assigned ids of this pair can reach.
+			for {
+				var id int
+				switch {
+				case s.when == c19Pre && r.Chance(pLowID):
+					id = r.Intn(r.Intn(2*nCh+2) + 1) // skewed towards 0/1: the ids the library hands out first
+				case r.Chance(0.7):
+					id = r.Range(64, 1023)
+				default:
+					id = kit.Pick(r, []int{65534, 65533, 65532, 32768, 32767, r.Range(1024, 65534)})
+				}
+				if s.idMode == c19IDExplicit {
+					id = id&^1 | (1 - s.creator)
+					if id > 65534 {
+						id -= 2
+					}
+				}
+				if !ids[id] {
+					ids[id] = true
+					s.id = uint16(id) //nolint:gosec
+
+					break
+				}
+			}
+			if s.negotiated() && s.when != c19Pre {
+				s.eager = false // the application must not send before the other peer has created its end
+			}
+		}
 		t := (caseIdx + k) % 6 // every pair starts at a different type: all 6 appear early
 		if k == 0 || r.Chance(0.45) {
 			t = 0
@@ -476,8 +575,9 @@ func (s *c19Spec) send(dir int) {
 	})
 }
 
-// c19Compare returns "" when got == sent, otherwise the cause signature and an explanation.
-func c19Compare(sent, got []c19Msg) (string, string) { //nolint:cyclop
+// c19Compare returns "" when got == sent, otherwise the cause signature and an explanation. origin (optional) tells on which
+// other channel/direction of the pair a message was sent ("" when on none).
+func c19Compare(sent, got []c19Msg, origin func(c19Msg) string) (string, string) { //nolint:cyclop
 	j := 0
 	for j < len(sent) && j < len(got) && sent[j].eq(got[j]) {
 		j++
@@ -520,8 +620,14 @@ func c19Compare(sent, got []c19Msg) (string, string) { //nolint:cyclop
 			return "text-binary-flag-flipped", fmt.Sprintf("position %d holds the bytes of sent #%d %s with IsString=%v", j, k, sent[k], g.text)
 		}
 	}
+	if origin != nil {
+		if from := origin(g); from != "" {
+			return "message-delivered-on-wrong-channel", fmt.Sprintf("position %d holds %s, which was never sent on this channel/direction but on %s (%d sent here, %d arrived)",
+				j, g, from, len(sent), len(got))
+		}
+	}
 	if j >= len(sent) {
-		return "message-duplicated", fmt.Sprintf("%d messages sent but %d arrived; surplus #%d is %s", len(sent), len(got), j, g)
+		return "message-never-sent-delivered", fmt.Sprintf("%d messages sent but %d arrived; surplus #%d is %s, which equals no message sent here", len(sent), len(got), j, g)
 	}
 
 	return "message-corrupted", fmt.Sprintf("position %d: sent %s (%d bytes), arrived %s (%d bytes), which was never sent", j, sent[j], len(sent[j].data), g, len(g.data))
@@ -540,12 +646,54 @@ func c19IsPrefix(got, sent []c19Msg) bool {
 	return true
 }
 
+// c19IDPressure counts, over both peers, the library-assigned channels that are created (before signalling) EARLIER than a channel
+// with an application-chosen id which equals the id a lowest-free-of-my-parity allocator would hand out if it looked only at the
+// channels created so far. Coverage metric only: such pairs need the library to know all application-chosen ids before it
+// assigns the first one.
+func c19IDPressure(specs []*c19Spec) int {
+	n := 0
+	for peer := 0; peer < 2; peer++ {
+		used := map[int]bool{}
+		later := map[int]int{} // application-chosen id on this peer -> number of channels of this peer created before it
+		var seq []*c19Spec
+		for _, s := range specs {
+			if s.when == c19Pre && (s.creator == peer || s.negotiated()) {
+				seq = append(seq, s)
+			}
+		}
+		for pos, s := range seq {
+			if s.idMode != c19IDAuto {
+				later[int(s.id)] = pos
+			}
+		}
+		for pos, s := range seq {
+			if s.idMode != c19IDAuto {
+				used[int(s.id)] = true
+
+				continue
+			}
+			id := 1 - peer // peer 0 = offerer = DTLS server: odd
+			for used[id] {
+				id += 2
+			}
+			used[id] = true
+			if at, ok := later[id]; ok && at > pos {
+				n++
+			}
+		}
+	}
+
+	return n
+}
+
 // ---------------------------------------------------------------- the monitor
 
 func TestVerifC19(t *testing.T) { //nolint:gocognit,cyclop,maintidx
 	run := kit.Start(t, "C19", "seeded pion pairs, each over its own vnet (router one-way delay 0–40 ms + jitter; per-datagram scheduler: 0–25% of the "+
-		"datagrams arrive late = reordered, 0–3% duplicated, thorough: 0–2% lost); 1–6 in-band channels per pair created by either peer before or after "+
-		"the connection exists, all 6 channel types, random labels/protocols/reliability values; every reliable ordered channel carries 20–200 messages "+
+		"datagrams arrive late = reordered, 0–3% duplicated, thorough: 0–2% lost); 1–6 channels per pair created by either peer before signalling, while "+
+		"the transports come up or after the connection exists, in random order; per-pair regimes for how many channels are early and how many carry an "+
+		"application-chosen stream id (in-band with DataChannelInit.ID, or Negotiated+ID created by both peers; ids from the crowded low end 0..2n+1, "+
+		"64..1023, or up to 65534); all 6 channel types, random labels/protocols/reliability values; every reliable ordered channel carries 20–200 messages "+
 		"per direction (text/binary, sizes 0,1,2, ~MTU, 16 KiB±1, 64 KiB−k..64 KiB, random), sent after a barrier or straight from OnOpen, optionally "+
 		"closed by the sender right after its last Send. A pair is non-trivial when ≥ 20 messages crossed a reliable ordered channel in one direction "+
 		"and the network reordered at least one datagram; distinct by the generated channel/message plan")
@@ -578,14 +726,25 @@ func TestVerifC19(t *testing.T) { //nolint:gocognit,cyclop,maintidx
 		}
 		var descParts []string
 		for _, s := range specs {
-			descParts = append(descParts, fmt.Sprintf("ch%d[%s by%d pre=%v eager=%v close=%d label=%q proto=%q rtx=%s life=%s msgs=%d/%d]", s.k, s.typ, s.creator,
-				s.pre, s.eager, s.closeAfter, firstN(s.label, 24), firstN(s.protocol, 16), c19Ptr(s.maxRtx), c19Ptr(s.maxLife), len(s.plan[0]), len(s.plan[1])))
+			descParts = append(descParts, fmt.Sprintf("ch%d[%s by%d %s id=%s eager=%v close=%d label=%q proto=%q rtx=%s life=%s msgs=%d/%d]", s.k, s.typ, s.creator,
+				c19WhenNames[s.when], s.idDesc(), s.eager, s.closeAfter, firstN(s.label, 24), firstN(s.protocol, 16), c19Ptr(s.maxRtx), c19Ptr(s.maxLife), len(s.plan[0]), len(s.plan[1])))
 		}
 		desc := params.String() + " " + strings.Join(descParts, " ")
 		byLabel := map[string]*c19Spec{}
+		sentOn := map[string]string{} // message (>= 8 bytes: carries its channel/direction/seq header) -> where it is sent
 		for _, s := range specs {
-			byLabel[s.label] = s
+			if !s.negotiated() {
+				byLabel[s.label] = s
+			}
+			for dir := 0; dir < 2; dir++ {
+				for q, m := range s.plan[dir] {
+					if len(m.data) >= 8 {
+						sentOn[fmt.Sprintf("%v|%s", m.text, m.data)] = fmt.Sprintf("channel %d (%s) direction %d as #%d", s.k, c19IDNames[s.idMode], dir, q)
+					}
+				}
+			}
 		}
+		pressure := c19IDPressure(specs)
 
 		nw, err := c19NewNet(kit.Seed()*1000003+uint64(i), params) //nolint:gosec
 		if err != nil {
@@ -638,26 +797,44 @@ func TestVerifC19(t *testing.T) { //nolint:gocognit,cyclop,maintidx
 				remMu.Unlock()
 			})
 		}
-		create := func(s *c19Spec) bool {
-			dc, err := pcs[s.creator].CreateDataChannel(s.label, s.init())
+		createEnd := func(s *c19Spec, dir int) bool { // dir: the direction this end sends in (0: the "creator" end)
+			side := s.creator
+			if dir == 1 {
+				side = 1 - s.creator
+			}
+			dc, err := pcs[side].CreateDataChannel(s.label, s.init())
 			if err != nil {
 				run.Inconclusive("create-failed: " + firstN(err.Error(), 60))
 
 				return false
 			}
 			e := c19NewEnd(dc)
-			s.local = e
+			if dir == 0 {
+				s.local = e
+			} else {
+				s.remote = e
+			}
 			dc.OnOpen(func() {
 				e.oOnce.Do(func() { close(e.opened) })
-				if s.eager && s.reliableOrdered() && len(s.plan[0]) > 0 {
-					s.send(0)
+				if s.eager && s.reliableOrdered() && len(s.plan[dir]) > 0 {
+					s.send(dir)
 				}
 			})
 
 			return true
 		}
+		create := func(s *c19Spec) bool {
+			if !s.negotiated() {
+				return createEnd(s, 0)
+			}
+			if s.otherFirst {
+				return createEnd(s, 1) && createEnd(s, 0)
+			}
+
+			return createEnd(s, 0) && createEnd(s, 1)
+		}
 		for _, s := range specs {
-			if s.pre && !create(s) {
+			if s.when == c19Pre && !create(s) {
 				return
 			}
 		}
@@ -666,29 +843,91 @@ func TestVerifC19(t *testing.T) { //nolint:gocognit,cyclop,maintidx
 
 			return
 		}
+		for _, s := range specs { // ICE/DTLS/SCTP are coming up right now
+			if s.when == c19Mid && !create(s) {
+				return
+			}
+		}
 		if !rigWaitConnected(30*time.Second, pcs[0], pcs[1]) {
 			run.Inconclusive("connect-watchdog")
 
 			return
 		}
 		for _, s := range specs {
-			if !s.pre && !create(s) {
+			if s.when == c19Post && !create(s) {
 				return
 			}
 		}
 
-		// ---- wait (watchdog) until every channel is open at its creator and known, by stream id, at the other peer
-		matched := kit.Eventually(30*time.Second, func() bool {
+		// ---- wait (watchdog) until every channel is open at its creator and, in-band: known by stream id at the other peer /
+		// negotiated: open at the other peer too. The wait for an in-band channel also ends on positive evidence that it cannot be
+		// announced any more: a second DataChannel object of the creating peer reports the very same stream id.
+		type c19Obj struct {
+			dc   *DataChannel
+			what string
+		}
+		objectsOn := func(peer int) []c19Obj { // every DataChannel object the application holds on this peer
+			var out []c19Obj
 			for _, s := range specs {
-				select {
-				case <-s.local.opened:
-				default:
+				if s.creator == peer && s.local != nil {
+					out = append(out, c19Obj{s.local.dc, c19IDNames[s.idMode]})
+				}
+				if s.negotiated() && s.creator != peer && s.remote != nil {
+					out = append(out, c19Obj{s.remote.dc, c19IDNames[s.idMode]})
+				}
+			}
+			remMu.Lock()
+			for _, e := range remotes[peer] {
+				out = append(out, c19Obj{e.dc, "announced-by-remote"})
+			}
+			remMu.Unlock()
+
+			return out
+		}
+		sharesIDWith := func(s *c19Spec) string { // "" or the kind of another object on the creator's peer with the stream id of s
+			id := s.local.dc.ID()
+			if id == nil {
+				return ""
+			}
+			for _, o := range objectsOn(s.creator) {
+				if oid := o.dc.ID(); o.dc != s.local.dc && oid != nil && *oid == *id {
+					return o.what
+				}
+			}
+
+			return ""
+		}
+		isOpen := func(e *c19End) bool {
+			select {
+			case <-e.opened:
+				return true
+			default:
+				return false
+			}
+		}
+		var unannounced []*c19Spec
+		stuck := ""
+		matched := kit.Eventually(30*time.Second, func() bool {
+			unannounced = unannounced[:0]
+			var pending []*c19Spec
+			var pendingFound []*c19End
+			claimed := map[*c19End]*c19Spec{}
+			for _, s := range specs {
+				if s.local.dc.ID() == nil {
+					stuck = "creator-end-without-stream-id:" + c19IDNames[s.idMode] + "/" + c19WhenNames[s.when]
+
 					return false
+				}
+				if s.negotiated() {
+					if !isOpen(s.local) || !isOpen(s.remote) {
+						stuck = "other-end-not-open:" + c19IDNames[s.idMode] + "/" + c19WhenNames[s.when]
+
+						return false
+					}
+
+					continue
 				}
 				id := s.local.dc.ID()
-				if id == nil {
-					return false
-				}
 				remMu.Lock()
 				var found *c19End
 				for _, e := range remotes[1-s.creator] {
@@ -696,21 +935,33 @@ func TestVerifC19(t *testing.T) { //nolint:gocognit,cyclop,maintidx
 						found = e
 					}
 				}
-				if found != nil {
+				remMu.Unlock()
+				// announced: the other peer holds an open channel with this stream id AND the creator's OnOpen has fired (it fires
+				// when the other peer has acknowledged the channel)
+				if found != nil && isOpen(found) && isOpen(s.local) {
+					claimed[found] = s
+					remMu.Lock()
 					s.remoteByID = found
 					if s.remote == nil {
 						s.remote = found
 					}
+					remMu.Unlock()
+
+					continue
 				}
-				remMu.Unlock()
-				if found == nil {
+				pending = append(pending, s)
+				pendingFound = append(pendingFound, found)
+			}
+			for k, s := range pending {
+				// the wait for s ends only on positive evidence that it cannot be announced as a channel of its own any more: another
+				// DataChannel object of its peer reports the same stream id and, if the other peer does hold a channel with that id,
+				// that one is already the acknowledged counterpart of a different channel
+				if sharesIDWith(s) == "" || (pendingFound[k] != nil && claimed[pendingFound[k]] == nil) {
+					stuck = "not-announced-or-not-open:" + c19IDNames[s.idMode] + "/" + c19WhenNames[s.when]
+
 					return false
 				}
-				select {
-				case <-found.opened:
-				default:
-					return false
-				}
+				unannounced = append(unannounced, s)
 			}
 
 			return true
@@ -722,13 +973,63 @@ func TestVerifC19(t *testing.T) { //nolint:gocognit,cyclop,maintidx
 			if len(errs) > 0 {
 				run.Seen("sctp_errors_while_waiting", firstN(errs[0], 80))
 			}
+			run.Seen("channel_open_watchdog_stuck_at", stuck)
 			run.Inconclusive("channel-open-watchdog")
 
 			return
 		}
+		caseViolated := false
+		for _, s := range unannounced {
+			other := sharesIDWith(s)
+			caseViolated = true
+			s.remoteByID = nil
+			run.Violation("inband-channel-not-announced:stream-id-shared-with:"+other, fmt.Sprintf("in-band channel %d (%s, created %s by peer %d, label %q) has been given stream id %d, "+
+				"but a second DataChannel object of the same peer (%s) reports the same stream id: the remote peer has not announced the in-band channel and cannot tell the two apart",
+				s.k, c19IDNames[s.idMode], c19WhenNames[s.when], s.creator, firstN(s.label, 40), *s.local.dc.ID(), other), i,
+				map[string]any{"channel": s.k, "id_mode": c19IDNames[s.idMode], "created": c19WhenNames[s.when], "stream_id": *s.local.dc.ID(), "shared_with": other, "case": desc})
+		}
+		for peer := 0; peer < 2 && len(unannounced) == 0; peer++ {
+			seen := map[uint16]bool{}
+			for _, o := range objectsOn(peer) {
+				if id := o.dc.ID(); id != nil {
+					if seen[*id] {
+						run.Count("model_divergence_stream_id_shared_but_all_channels_announced", 1)
+					}
+					seen[*id] = true
+				}
+			}
+		}
+		for _, s := range specs { // what the generator assumes about id parity (coverage of the id classes depends on it)
+			if id := s.local.dc.ID(); s.idMode == c19IDAuto && int(*id)%2 != 1-s.creator {
+				run.Count("model_divergence_auto_id_parity", 1)
+			}
+			if s.idMode != c19IDAuto && *s.local.dc.ID() != s.id {
+				run.Count("model_divergence_explicit_id_not_kept", 1)
+			}
+		}
 
 		// ---- in-band parameter oracle (all six channel types)
 		for _, s := range specs {
+			run.Seen("id_modes", c19IDNames[s.idMode]+"/"+c19WhenNames[s.when])
+			if s.idMode != c19IDAuto {
+				switch {
+				case s.id < 16:
+					run.Seen("application_chosen_ids", fmt.Sprintf("%s %d", c19IDNames[s.idMode], s.id))
+				case s.id < 1024:
+					run.Seen("application_chosen_ids", c19IDNames[s.idMode]+" 64..1023")
+				default:
+					run.Seen("application_chosen_ids", c19IDNames[s.idMode]+" 1024..65534")
+				}
+			}
+			if s.negotiated() {
+				run.Count("negotiated_channels_opened_on_both_peers", 1)
+				run.Seen("channel_types", s.typ)
+
+				continue
+			}
+			if s.remoteByID == nil {
+				continue // reported above
+			}
 			rd := s.remoteByID.dc
 			if s.remote != s.remoteByID {
 				run.Count("model_divergence_label_match_differs_from_id_match", 1)
@@ -747,10 +1048,14 @@ func TestVerifC19(t *testing.T) { //nolint:gocognit,cyclop,maintidx
 			}
 			for _, f := range fields {
 				if f.want != f.got {
-					run.Violation("inband-params-mismatch:"+f.name, fmt.Sprintf("channel created with %s (label %q protocol %q maxRetransmits %s maxPacketLifeTime %s) "+
+					sig := "inband-params-mismatch:" + f.name
+					if other := sharesIDWith(s); other != "" { // the remote object found by stream id may be the counterpart of that other channel
+						sig += ":stream-id-shared-with:" + other
+					}
+					run.Violation(sig, fmt.Sprintf("channel created with %s (label %q protocol %q maxRetransmits %s maxPacketLifeTime %s) "+
 						"appears on the remote peer with %s=%q, want %q", s.typ, firstN(s.label, 40), firstN(s.protocol, 40), c19Ptr(s.maxRtx), c19Ptr(s.maxLife),
 						f.name, firstN(f.got, 80), firstN(f.want, 80)), i,
-						map[string]any{"type": s.typ, "field": f.name, "want": f.want, "got": f.got, "label_hex": kit.Hex([]byte(s.label)), "pre_connection": s.pre, "case": desc})
+						map[string]any{"type": s.typ, "field": f.name, "want": f.want, "got": f.got, "label_hex": kit.Hex([]byte(s.label)), "created": c19WhenNames[s.when], "id_mode": c19IDNames[s.idMode], "case": desc})
 				}
 			}
 			run.Count("inband_channels_checked", 1)
@@ -765,7 +1070,7 @@ func TestVerifC19(t *testing.T) { //nolint:gocognit,cyclop,maintidx
 		// ---- traffic: every direction of every reliable ordered channel in parallel
 		for _, s := range specs {
 			for dir := 0; dir < 2; dir++ {
-				if s.reliableOrdered() && len(s.plan[dir]) > 0 {
+				if s.reliableOrdered() && len(s.plan[dir]) > 0 && s.sender(dir) != nil && s.receiver(dir) != nil { // never-announced channels stay silent
 					go s.send(dir)
 				} else {
 					s.sendOnce[dir].Do(func() { close(s.sendDone[dir]) })
@@ -779,10 +1084,13 @@ func TestVerifC19(t *testing.T) { //nolint:gocognit,cyclop,maintidx
 			done := true
 			for _, s := range specs {
 				for dir := 0; dir < 2; dir++ {
-					tot += s.receiver(dir).n.Load()
+					rcv := s.receiver(dir)
+					if rcv != nil {
+						tot += rcv.n.Load()
+					}
 					select {
 					case <-s.sendDone[dir]:
-						if int(s.receiver(dir).n.Load()) < len(s.sent[dir]) && !s.receiver(dir).isClosed() {
+						if rcv != nil && int(rcv.n.Load()) < len(s.sent[dir]) && !rcv.isClosed() {
 							done = false
 						}
 					default:
@@ -793,6 +1101,10 @@ func TestVerifC19(t *testing.T) { //nolint:gocognit,cyclop,maintidx
 
 			return tot, done
 		}
+		stall := 30 * time.Second
+		if caseViolated {
+			stall = 3 * time.Second // the pair already violated the property; what follows only adds detail
+		}
 		last, lastChange := int64(-1), time.Now()
 		for {
 			tot, done := progress()
@@ -801,7 +1113,7 @@ func TestVerifC19(t *testing.T) { //nolint:gocognit,cyclop,maintidx
 			}
 			if tot != last {
 				last, lastChange = tot, time.Now()
-			} else if time.Since(lastChange) > 30*time.Second {
+			} else if time.Since(lastChange) > stall {
 				break
 			}
 			time.Sleep(2 * time.Millisecond)
@@ -811,8 +1123,21 @@ func TestVerifC19(t *testing.T) { //nolint:gocognit,cyclop,maintidx
 
 		// ---- delivery oracle
 		nontrivial := false
+		origin := func(m c19Msg) string {
+			if len(m.data) < 8 {
+				return ""
+			}
+
+			return sentOn[fmt.Sprintf("%v|%s", m.text, m.data)]
+		}
 		for _, s := range specs {
 			if !s.reliableOrdered() {
+				for dir := 0; dir < 2; dir++ { // nothing is sent on these; the statement is about reliable ordered channels only
+					if rcv := s.receiver(dir); rcv != nil && rcv.n.Load() > 0 {
+						run.Count("model_divergence_message_on_idle_partial_reliability_channel", 1)
+					}
+				}
+
 				continue
 			}
 			for dir := 0; dir < 2; dir++ {
@@ -824,12 +1149,17 @@ func TestVerifC19(t *testing.T) { //nolint:gocognit,cyclop,maintidx
 					continue
 				}
 				sent := s.sent[dir]
-				if len(s.plan[dir]) == 0 {
+				rcv := s.receiver(dir)
+				if rcv == nil { // in-band channel that was never announced (reported above): there is no receiving end to judge
+					run.Count("messages_sent_on_unannounced_channel", len(sent))
+
 					continue
 				}
-				rcv := s.receiver(dir)
 				closedFirst := rcv.isClosed() // read BEFORE the list: after OnClose nothing more can arrive
 				got := rcv.received()
+				if len(s.plan[dir]) == 0 && len(got) == 0 {
+					continue // silent direction, nothing arrived
+				}
 				run.Count("messages_sent", len(sent))
 				run.Count("messages_received", len(got))
 				run.Count("send_errors", s.sendErrs[dir])
@@ -849,11 +1179,14 @@ func TestVerifC19(t *testing.T) { //nolint:gocognit,cyclop,maintidx
 				if s.closeAfter >= 0 {
 					mode += "+close-after-send"
 				}
-				if s.pre {
-					mode += "+pre"
+				if s.when != c19Post {
+					mode += "+" + c19WhenNames[s.when]
+				}
+				if s.idMode != c19IDAuto {
+					mode += "+" + c19IDNames[s.idMode]
 				}
 				run.Seen("traffic_modes", mode)
-				sig, why := c19Compare(sent, got)
+				sig, why := c19Compare(sent, got, origin)
 				detail := func() map[string]any {
 					var ss, gs []string
 					for k, m := range sent {
@@ -867,7 +1200,7 @@ func TestVerifC19(t *testing.T) { //nolint:gocognit,cyclop,maintidx
 						}
 					}
 
-					return map[string]any{"channel": s.k, "direction": dir, "mode": mode, "net": params.String(), "why": why, "sent": ss, "received": gs, "case": desc}
+					return map[string]any{"channel": s.k, "direction": dir, "mode": mode, "id_mode": c19IDNames[s.idMode], "stream_id": c19Ptr(s.local.dc.ID()), "net": params.String(), "why": why, "sent": ss, "received": gs, "case": desc}
 				}
 				switch {
 				case sig == "":
@@ -939,6 +1272,9 @@ func TestVerifC19(t *testing.T) { //nolint:gocognit,cyclop,maintidx
 		lostTotal.Add(lost)
 		normalTotal.Add(normal)
 		run.Seen("one_way_delay", params.minDelay.String())
+		if pressure > 0 {
+			run.Count("pairs_with_library_assigned_channel_created_before_explicit_channel_on_the_next_free_id", 1)
+		}
 		run.Case(desc, nontrivial && late > 0)
 		if i < 4 {
 			run.Sample(map[string]any{"case": firstN(desc, 700), "datagrams": fmt.Sprintf("normal=%d late=%d duplicated=%d lost=%d", normal, late, dup, lost)})
